@@ -2,6 +2,8 @@ import Driver.Proto
 import Driver.C09
 import Driver.C21
 import Driver.C12
+import Driver.C22
+import Driver.C34
 /-
   Model driver: reads one request per line on stdin (`<suite> <op> <args…>`), answers one
   line per request on stdout.  Imports models only (no Mathlib, no proofs).
@@ -13,6 +15,8 @@ def dispatch (fs : List String) : String :=
   | "c09" :: rest => Driver.c09 IronCalc.Generated.parenStringify rest
   | "c21" :: rest => Driver.c21 rest
   | "c12" :: rest => Driver.c12 rest
+  | "c22" :: rest => Driver.c22 rest
+  | "c34" :: rest => Driver.c34 rest
   | _ => "bad-op"
 
 partial def loop (h : IO.FS.Stream) (out : IO.FS.Stream) : IO Unit := do
